@@ -10,3 +10,5 @@ mod globals;
 mod arith;
 #[cfg(all(kani, feature = "cmpf"))]
 mod cmpf;
+#[cfg(all(kani, feature = "cutwalk"))]
+mod cutwalk;
